@@ -390,6 +390,8 @@ class G:
         self.use("logic")
         l = self.expr("bool", d - 1)
         x = self.r.random()
+        if self.p_bad == 0.0:
+            x = 1.0     # well-typed mode: no deliberately ill-typed operands, not even dead ones
         if x < 0.2:
             # the right operand fails: it must not be evaluated when the left decides
             self.use("logic-shortcircuit-guard")
